@@ -50,7 +50,7 @@ theorem execB_emits {env : Env} {σ : Nat → FV → FV} {ds : List Nat} (H : En
 
 /-- the initial world after `add_destinations(*ds)` -/
 theorem init_eq (env : Env) (ds : List Nat) (p : Block) :
-    execB env none {} (.cons (.addDests ds) p) = execB env none ({ anyAdded := true, dests := ds } : World) p := by
+    execB env none {} (.cons (.addDests ds) p) = execB env none ({ anyAdded := true, dests := ds, dupAdd := hasDup ds } : World) p := by
   simp only [execB, execS, World.addDests]
   rfl
 
@@ -68,9 +68,9 @@ theorem emitted_is_forest {env : Env} {σ : Nat → FV → FV} {ds : List Nat} (
     run.2 = r.out ∧ r.out ≠ .stuck ∧ run.1.ctx = none ∧
     ∀ d ∈ ds, offeredTo run.1 d = run.1.stage ∧ acceptedBy run.1 d = run.1.stage := by
   intro run r
-  have pre : PreT ds ({ anyAdded := true, dests := ds } : World) ⟨0, 0⟩ := ⟨⟨fun _ h => h, rfl⟩, rfl, rfl, rfl⟩
+  have pre : PreT ds ({ anyAdded := true, dests := ds, dupAdd := hasDup ds } : World) ⟨0, 0⟩ := ⟨⟨fun _ h => h, rfl⟩, rfl, rfl, rfl⟩
   obtain ⟨post, ho, hns⟩ := execB_top H none false (by simp) p hs _ [] _ pre hwf
-  have hrun : run = execB env none ({ anyAdded := true, dests := ds } : World) p := init_eq env ds p
+  have hrun : run = execB env none ({ anyAdded := true, dests := ds, dupAdd := hasDup ds } : World) p := init_eq env ds p
   refine ⟨?_, post.flat, by rw [hrun]; exact ho, hns, by rw [hrun]; exact post.ctx, ?_⟩
   · rw [hrun, post.stage, F.dicts_flat env σ 0 [] 0 _ post.flat]
     rfl
@@ -155,7 +155,7 @@ theorem roundtrip {env : Env} {σ : Nat → FV → FV} {ds : List Nat} (H : EnvO
       trees.WF ∧ l.Perm trees.msgs ∧
       ∀ ms : List PM.PMsg, ms.Perm l → ∃ out, PM.parseStream ms = .ok out ∧ Reconstructs trees out := by
   intro stage trees
-  have pre : PreT ds ({ anyAdded := true, dests := ds } : World) ⟨0, 0⟩ := ⟨⟨fun _ h => h, rfl⟩, rfl, rfl, rfl⟩
+  have pre : PreT ds ({ anyAdded := true, dests := ds, dupAdd := hasDup ds } : World) ⟨0, 0⟩ := ⟨⟨fun _ h => h, rfl⟩, rfl, rfl, rfl⟩
   obtain ⟨post, _, _⟩ := execB_top H none false (by simp) p hs _ [] _ pre hwf
   have hstage : stage = F.dicts env σ 0 (denB env none false p ⟨0, 0⟩ []).f [] 0 := by
     simp only [stage, init_eq, post.stage]; rfl
